@@ -11,8 +11,9 @@ sentinel ends the iteration.  The functor is abstract: `f item` are the results 
 Atomic steps (the granularity CPython's `queue.Queue` mutex and `deque.append` give): one `put`, one `get`, finishing
 one item, leaving after the sentinel.  Every interleaving of these steps is a run; `Step` is the labelled transition
 relation and `apply` its executable form, used to validate event traces recorded from the real code.
-Outside the model (assumptions of the property): the functor does not raise and exhausts its iterator; the input
-iterable does not raise (so the kill event stays clear).
+Outside the model (assumptions of the property): the functor does not raise and exhausts its iterator.  Input
+iterables that raise (the kill event) and calls made one after the other are modelled in the second half of this file
+(`XState`, `SessionReach`); `regen_repository`'s use of the map at the end (`regenF`).
 -/
 namespace Pkgcore.C41
 
@@ -96,5 +97,87 @@ def replay {α β : Type} (f : α → List β) (fin : Nat → List α → Option
   | e :: es => match apply f fin s e with
     | some s' => replay f fin s' es
     | none => none
+
+/-! ## The kill event: input iterables that raise, and calls one after the other
+
+`kill = threading.Event(); kill.clear()` is created inside every call.  When feeding the queue raises (the input
+iterable raises at some position), `map_async` sets it, still posts the `n` sentinels, joins and re-raises.  A worker
+tests the event before every `qlist.get()`; a worker that finds it set leaves without taking anything.  Test and `get`
+are two steps of the real thread, so a worker that tested just before the event was set still takes one element: the
+model therefore leaves `get` enabled whatever the event says (an over-approximation — every real schedule is a run of
+the model) and adds `quit`, enabled only once the event is set. -/
+
+structure XState (α β : Type) where
+  base : State α β
+  kill : Bool                    -- the call's own kill event
+  dropped : List α               -- items the input iterable never delivered (it raised first)
+  deriving Repr
+
+inductive XEvent (α : Type)
+  | base (e : Event α)
+  | raise                        -- the input iterable raises: `kill.set()`, nothing more is fed
+  | quit (w : Nat)               -- worker `w`, between two items, finds the kill event set and returns
+  deriving DecidableEq, Repr
+
+/-- every call starts with a fresh, clear event -/
+def xinit {α β : Type} (items : List α) (n : Nat) : XState α β := ⟨init items n, false, []⟩
+
+def xapply {α β : Type} (f : α → List β) (fin : Nat → List α → Option β) (xs : XState α β) : XEvent α → Option (XState α β)
+  | .base e => (apply f fin xs.base e).map fun b => { xs with base := b }
+  | .raise =>
+    -- while feeding, i.e. before the first sentinel is posted; at most once
+    if xs.kill = false ∧ xs.base.sentinelsLeft = xs.base.workers.length then
+      some { base := { xs.base with remaining := [] }, kill := true, dropped := xs.base.remaining }
+    else none
+  | .quit w =>
+    match xs.kill, xs.base.workers[w]? with
+    | true, some .idle =>
+      some { xs with base := { xs.base with workers := xs.base.workers.set w .done,
+                                            results := xs.base.results ++ (fin w (xs.base.handled.getD w [])).toList } }
+    | _, _ => none
+
+def XStep {α β : Type} (f : α → List β) (fin : Nat → List α → Option β) (xs xs' : XState α β) : Prop :=
+  ∃ e, xapply f fin xs e = some xs'
+
+inductive XReachable {α β : Type} (f : α → List β) (fin : Nat → List α → Option β) (items : List α) (n : Nat) :
+    XState α β → Prop
+  | start : XReachable f fin items n (xinit items n)
+  | step {xs xs'} : XReachable f fin items n xs → XStep f fin xs xs' → XReachable f fin items n xs'
+
+/-- the call is over (it returns, or re-raises the iterable's exception when `kill` is set) -/
+def XTerminal {α β : Type} (xs : XState α β) : Prop := Terminal xs.base
+
+def xreplay {α β : Type} (f : α → List β) (fin : Nat → List α → Option β) (xs : XState α β) : List (XEvent α) → Option (XState α β)
+  | [] => some xs
+  | e :: es => match xapply f fin xs e with
+    | some xs' => xreplay f fin xs' es
+    | none => none
+
+/-- one call of `map_async`: its input and the number of threads it starts -/
+structure Call (α : Type) where
+  items : List α
+  n : Nat
+
+/-- a process making calls one after the other: `SessionReach hist c xs` — after the calls `hist` have ended (each in
+any way: returned, or failed because its iterable raised) the call `c` is in state `xs`.  The next call starts from
+`xinit`: queue, result deque and kill event are locals of `map_async`, nothing outlives a call. -/
+inductive SessionReach {α β : Type} (f : α → List β) (fin : Nat → List α → Option β) :
+    List (Call α) → Call α → XState α β → Prop
+  | first (c : Call α) : SessionReach f fin [] c (xinit c.items c.n)
+  | step {hist c xs xs'} : SessionReach f fin hist c xs → XStep f fin xs xs' → SessionReach f fin hist c xs'
+  | next {hist c xs} (c' : Call α) : SessionReach f fin hist c xs → XTerminal xs →
+      SessionReach f fin (hist ++ [c]) c' (xinit c'.items c'.n)
+
+/-! ## `regen_repository`
+
+`regen_repository(repo, pkgs, observer, threads)` hands `pkgs` itself — unchanged, one package per queue element — to
+`map_async` with `regen_iter` as the worker function: per package it calls the repo's regen helper and yields
+`(pkg, exception)` when the helper raised anything but a `MetadataException`; `regen_repository` yields the result
+deque.  `outcome pkg` is that exception, if any. -/
+
+def regenF {α ε : Type} (outcome : α → Option ε) (pkg : α) : List (α × ε) :=
+  match outcome pkg with
+  | some e => [(pkg, e)]
+  | none => []
 
 end Pkgcore.C41
